@@ -132,7 +132,14 @@ def dfa(R):
                 and isinstance(n.ast.targets[0], ast.Name):
             found.append((n, v, n.ast.targets[0].id))
     need(len(found) >= 1, 'no table-driven state transition found in Utf8Validator.validate')
-    node, sub, statevar = found[0]
+    # the transition is the table lookup whose result is the state (the value stored back to self._state)
+    stored = set()
+    for n in g.live_nodes():
+        if n.kind == 'stmt' and isinstance(n.ast, ast.Assign) and U(n.ast.targets[0]) == 'self._state' \
+                and isinstance(n.ast.value, ast.Name):
+            stored.add(n.ast.value.id)
+    cand = [x for x in found if x[2] in stored] or found
+    node, sub, statevar = cand[0]
     T = table_of(sub.value)
 
     state_syms = set()
@@ -154,6 +161,9 @@ def dfa(R):
         if isinstance(e, ast.Subscript):
             t2 = table_of(e.value)
             inner = strip_ord(e.slice)
+            if isinstance(inner, ast.Name):
+                io, ion = rd.origin(node, inner)
+                inner = strip_ord(io)
             if t2 is not None and isinstance(inner, ast.Subscript) and isinstance(inner.value, ast.Name) \
                     and inner.value.id == ba:
                 if t2 != T:
@@ -257,7 +267,12 @@ def loop(R):
     R.ob('C05.loop', 'loop bound', ok, 'loop condition %s is not `index < len(%s)`' % (U(c), ba), func=f, node=c)
     need(idx is not None, 'validate(): cannot identify the index variable')
     # the step subscripts ba[idx]
-    uses = [x for x in walk_no_nested(step_node.ast) if isinstance(x, ast.Subscript) and isinstance(x.value, ast.Name)
+    from .common import oexpr
+    step_expr = oexpr(R, g, step_node, step_node.ast.value) if isinstance(step_node.ast, ast.Assign) else step_node.ast
+    # through a temporary holding the byte class (char_class = T[ba[i]])
+    from .common import subst_locals
+    step_expr = subst_locals(R, g, step_node, step_expr, pure_only=False)
+    uses = [x for x in ast.walk(step_expr) if isinstance(x, ast.Subscript) and isinstance(x.value, ast.Name)
             and x.value.id == ba]
     R.ob('C05.loop', 'step reads data[index]', len(uses) == 1 and U(uses[0].slice) == idx,
          'transition reads %s, expected %s[%s]' % ([U(u) for u in uses], ba, idx), func=f, node=step_node.ast)
@@ -381,13 +396,21 @@ def loop(R):
 
 # ---------------------------------------------------------------------------------------------- route
 def _payload_reads(R, g, rd):
-    """yield nodes in parse() whose sent-in value is stored to frame.payload; returns [(yield node, call)]"""
+    """Payload reads of parse(): the awaitable whose sent-in value is stored to frame.payload.
+    returns [(site node, awaitable call, extra condition literals, yield node)] - the awaitable may be created in
+    the yield itself, bound to a local first, or chosen by a conditional expression."""
+    from .common import value_cases
     out = []
     for y in g.yields():
         st = y.stmt
         if isinstance(st, ast.Assign) and len(st.targets) == 1 and isinstance(st.targets[0], ast.Attribute) \
-                and st.targets[0].attr == 'payload' and st.value is y.ast and isinstance(y.ast.value, ast.Call):
-            out.append((y, y.ast.value))
+                and st.targets[0].attr == 'payload' and st.value is y.ast and y.ast.value is not None:
+            for (conds, val, site) in value_cases(R, g, y, y.ast.value):
+                if isinstance(val, ast.Call):
+                    # conditions collected by value_cases for a *definition* site are its dominating guards: the
+                    # path conditions to the site already contain them; keep only conditional-expression literals
+                    extra = set(conds) if site is y or isinstance(y.ast.value, ast.IfExp) else set()
+                    out.append((site, val, extra, y))
     return out
 
 
@@ -401,17 +424,17 @@ def route(R, RID='C05.route'):
     reads = _payload_reads(R, g, rd)
     need(len(reads) >= 2, 'FrameParser.parse: expected a validating and a raw payload read, found %d' % len(reads))
     text_reads, raw_reads = [], []
-    for (y, call) in reads:
+    for (site, call, extra, y) in reads:
         ts = R.types.call_targets(call, ctx)
         if any(t.kind == 'func' and t.qual == 'frame_parser.FrameParser.read_text' for t in ts):
-            text_reads.append((y, call))
+            text_reads.append((site, call, extra, y))
         elif any(t.kind == 'ctor' and t.cls == 'parser._ReadUtf8' for t in ts):
-            text_reads.append((y, call))
+            text_reads.append((site, call, extra, y))
         else:
-            raw_reads.append((y, call))
+            raw_reads.append((site, call, extra, y))
     need(text_reads, 'FrameParser.parse: no payload read through read_text / read_utf8')
     # frame variable = receiver of the .payload store
-    framevar = U(text_reads[0][0].stmt.targets[0].value)
+    framevar = U(text_reads[0][3].stmt.targets[0].value)
     T_TEXT = '%s.opcode == Opcode.TEXT' % framevar
     T_CONT = '%s.opcode == Opcode.CONTINUATION' % framevar
     T_FLAG = 'self._is_text'
@@ -427,14 +450,14 @@ def route(R, RID='C05.route'):
     def not_text_path(l):
         return (T_TEXT, False) in l and ((T_CONT, False) in l or (T_FLAG, False) in l
                                          or ('and(%s)' % ','.join(sorted([T_CONT, T_FLAG])), False) in l)
-    for (y, call) in text_reads:
-        pcs = path_conditions(R, g, rd, start, y)
+    for (site, call, extra, y) in text_reads:
+        pcs = [set(l) | extra for l in path_conditions(R, g, rd, start, site)]
         bad = [sorted(l) for l in pcs if not is_text_path(l)]
         R.ob(RID, 'validating read only for text', not bad,
              'a non-text frame (e.g. Ping between text fragments, or binary) can be read through the UTF-8 '
              'validating reader; path conditions: %s' % (bad[:1],), func=f, node=y.stmt)
-    for (y, call) in raw_reads:
-        pcs = path_conditions(R, g, rd, start, y)
+    for (site, call, extra, y) in raw_reads:
+        pcs = [set(l) | extra for l in path_conditions(R, g, rd, start, site)]
         bad = [sorted(l) for l in pcs if not not_text_path(l)]
         R.ob(RID, 'raw read never for text', not bad,
              'a TEXT frame or a continuation of a text message can be read without incremental validation; '
